@@ -201,6 +201,30 @@ def rule_concatenate(ctx):
             if not (T.contains(AXU, AXIS) and any(x[0] == 'binop' and x[1] in ('%', '+') for x in T.subterms(AXU))):
                 ctx.undecide('R3', 'concatenate: the axis position %s is not recognisably the normalised caller position' % T.show(AXU)[:80])
                 continue
+            # bounded check of the position: for 1-4 dimensions the position used is axis mod ndim for every -ndim <= axis < ndim
+            from ..rules import int_eval, bool_eval
+            ndts = set(x for src in [AXU] + [a for a, _ in p.guards] for x in T.subterms(src) if x[0] == 'attr' and x[2] == 'ndim')
+            wrong = None
+            for nd in (1, 2, 3, 4):
+                for ax in range(-6, 7):
+                    atoms = {AXIS: ax}
+                    for t in ndts:
+                        atoms[t] = nd
+                    feas = True
+                    for a, pol in p.guards:
+                        if T.contains(a, AXIS) and a[0] in ('cmp', 'boolop', 'unop'):
+                            r = bool_eval(a, atoms)
+                            if r is not None and r != pol:
+                                feas = False
+                    inrange = -nd <= ax < nd
+                    if inrange:
+                        got = int_eval(AXU, atoms)
+                        if feas and got is not None and got != ax % nd and wrong is None:
+                            wrong = 'position %d of %d-d arrays is read as %d' % (ax, nd, got)
+                    # (what happens to a position outside -ndim..ndim-1 is not part of the property: "every concatenation axis by name or position" are the valid ones)
+            if wrong:
+                ctx.violated('R3', fi, 'axis position mis-normalised', 'concatenate(axis=<int>): %s' % wrong, node=p.node)
+                continue
             ok = vals[0] == 'call' and T.dotted(vals[1]) == 'np.concatenate' and vals[2] and vals[2][0][0] == 'comp' and T.kw(vals, 'axis') == AXU \
                 and vals[2][0][2] == ('attr', ('elem', vals[2][0][3][0][1], vals[2][0][3][0][0]), 'values')
             if not ok:
